@@ -111,6 +111,14 @@ func main() {
 				}
 			}
 		}
+	case "authseq":
+		// the same scripts, but every Add is a real client handshake presented to the stream authenticator that shares
+		// the cache (service.NewShadowsocksStreamAuthenticator): accepted = Add returned true, ERR_REPLAY_CLIENT = false
+		var behs [][]op
+		hx.ReadJSON(*in, &behs)
+		for _, beh := range behs {
+			authSeq(tr, rng, beh)
+		}
 	case "conc":
 		if *maxcap == 0 {
 			*maxcap = 2 * *capa
